@@ -887,11 +887,20 @@ states.truncate(states.len() - {num_fields});
             .iter()
             .map(|nonterminal| {
                 let nonterminal_name = nonterminal.name();
+                // If the nonterminal is an enum that has a variant named `Error`,
+                // then `Self::Error` is ambiguous: it could refer to the variant
+                // or to the associated type. In that case, we must name the
+                // error type directly.
+                let error_type = if has_variant_named_error(nonterminal) {
+                    node_enum_name.as_str()
+                } else {
+                    "Self::Error"
+                };
                 format!(
                     r#"impl TryFrom<{node_enum_name}> for {nonterminal_name} {{
     type Error = {node_enum_name};
 
-    fn try_from(node: {node_enum_name}) -> Result<Self, Self::Error> {{
+    fn try_from(node: {node_enum_name}) -> Result<Self, {error_type}> {{
         match node {{
             {node_enum_name}::{nonterminal_name}(n) => Ok(n),
             _ => Err(node),
@@ -934,6 +943,13 @@ states.truncate(states.len() - {num_fields});
 struct GetFieldsetSrcOptions {
     use_semicolon_if_unnamed: bool,
     use_pub_on_named_fields: bool,
+}
+
+fn has_variant_named_error(nonterminal: &Nonterminal) -> bool {
+    match nonterminal {
+        Nonterminal::Struct(_) => false,
+        Nonterminal::Enum(e) => e.variants.iter().any(|variant| variant.name.name == "Error"),
+    }
 }
 
 fn create_unique_identifier(preferred_name: &str, used: &mut HashSet<String>) -> String {
